@@ -351,6 +351,47 @@ class Run:
                                          '', False)
                         if res[0] == 'ok':
                             self.count('processes_added_to_a_non_distributed_job')
+        elif kind == 'queued_process_then_application':
+            # on ONE instance: a (slow) application is being started, then a single process of another application is
+            # requested (it waits behind), then that other application itself is requested before the Starter is free
+            if len(managed) >= 2:
+                first = rng.choice(managed)
+                second = rng.choice([a for a in managed if a != first])
+                names = [ns for ns in namespecs if ns.split(':')[0] == second]
+                waiters = [ns for ns in names if self.prog_of(ns)[1].get('wait_exit')]
+                w.user_rpc(nick, 'supvisors.restart_application', rng.choice(strategies), first, False)
+                w.run_for(rng.choice([0.05, 0.3, 1.0]))
+                target = rng.choice(waiters or names)
+                rec['args'] = (first, target, second)
+                res1 = w.user_rpc(nick, 'supvisors.' + rng.choice(['start_process', 'restart_process']),
+                                  rng.choice(strategies), target, '', False)
+                w.run_for(rng.choice([0.0, 0.05, 0.3]))
+                rec['res'] = w.user_rpc(nick, 'supvisors.' + rng.choice(['start_application', 'restart_application']),
+                                        rng.choice(strategies), second, False)
+                if res1[0] == 'ok' and rec['res'][0] == 'ok':
+                    self.count('applications_requested_behind_a_queued_process_of_theirs')
+        elif kind == 'stop_duplicated_then_crash':
+            # a process runs on two instances (conflict left to the user); its application is stopped - both copies are
+            # slow to stop - and one of the two hosts, not the Master, is lost while the stops are pending
+            dup = self.duplicate_some_process()
+            rec['dup'] = dup
+            if dup and dup[3] == 'ok':
+                namespec, host_a, host_b = dup[:3]
+                app = namespec.split(':')[0]
+                w.run_for(rng.choice([4.0, 8.0, 12.0]))
+                master = self.master()
+                requester = rng.choice(live)
+                rec['on'] = requester
+                rec['args'] = (app, False)
+                rec['res'] = w.user_rpc(requester, 'supvisors.stop_application', app, False)
+                w.run_for(rng.choice([0.2, 0.6, 1.5, 3.0]))
+                victims = [h for h in (host_a, host_b) if h not in (master, requester) and w.instances[h].alive]
+                if victims and rec['res'][0] == 'ok':
+                    victim = rng.choice(victims)
+                    w.crash_instance(victim)
+                    self.lost.add(victim)
+                    rec['crashed'] = victim
+                    self.count('hosts_of_a_copy_lost_while_its_application_is_stopped')
         elif kind in ('enable', 'disable'):
             progs = sorted({p for ps in w.spec_of(nick)['groups'].values() for p in ps})
             if progs:
@@ -390,6 +431,22 @@ class Run:
                     self.count('groups_added_again')
         elif kind == 'dup':
             rec['res'] = self.duplicate_some_process()
+        elif kind == 'dup_pair':
+            # a stopped process of a managed application is started directly on two (or three) instances at (nearly)
+            # the same instant: copies of the same age
+            names = [ns for ns in namespecs if self.model[ns.split(':')[0]]['managed']]
+            rng.shuffle(names)
+            rec['res'] = []
+            for ns in names:
+                if any(i.running_truth().get(ns) not in (None, 0, 100, 200) for i in w.live()):
+                    continue
+                holders = [i for i in w.live() if i.sd.options.mood >= 1 and ns in i.running_truth()]
+                if len(holders) >= 2:
+                    for inst in rng.sample(holders, min(len(holders), rng.choice([2, 2, 3]))):
+                        rec['res'].append((ns, inst.nick, w.user_rpc(inst.nick, 'supervisor.startProcess', ns, False)[0]))
+                        w.run_for(rng.choice([0.0, 0.0, 0.01, 0.2]))
+                    self.count('pairs_of_copies_started_together')
+                    break
         elif kind == 'dup_unmanaged':
             # a process of an unmanaged application started directly on two instances: not a conflict for Supvisors
             names = [ns for ns in self.procs if not self.model[ns.split(':')[0]]['managed']]
